@@ -371,7 +371,7 @@ func (r *rwRT) ruleIterType() {
 		in := r.interp(rwConfig{root: fn})
 		// frame condition: the library calls made here (cursor, loader, go/types) cannot reach the rewriter's own fields
 		in.HavocKeep = func(key string) bool { return strings.HasPrefix(key, "r.") || strings.HasPrefix(key, "map:r.") }
-		in.Fields["r.seqImportedName"] = mkString("seq")
+		r.setImportNames(in, "", "seq")
 		for k := range strFields {
 			in.Fields[k] = mkString("seq")
 		}
